@@ -362,11 +362,17 @@ def replay(pid, path, repo):
     rep = json.load(open(path))
     print(f"replay {path}: property {rep['property']}")
     rc = 0
+    done = {}
     for f in rep["failed_obligations"]:
         print(f"- obligation {f['obligation']} ({f['backend']}): {f['message']}")
         if f.get("replay_test"):
             import kxrun
-            rc |= kxrun.replay_test(f, repo)
+            key = f["replay_test"].get("harness")
+            if key not in done:
+                done[key] = kxrun.replay_test(f, repo)
+            else:
+                print("  (same harness as above)")
+            rc |= done[key]
         else:
             print("  no concrete input recorded (no-failing-input-found); verifier output:")
             print("  " + (f.get("verifier_output") or "").replace("\n", "\n  "))
